@@ -208,3 +208,185 @@ pub fn search(seed: u64, n: u64) {
     }
     stats.print(PROP, "search");
 }
+
+
+// ------------------------------------------------------------------------------------------------ correspondence
+
+/// `PathContour::curves` as `from_path` builds it, through the public functions it calls: per curve the x control values,
+/// the y control values and the bounding box (min x, min y, max x, max y)
+fn curve_table(paths: &Vec<P>) -> Vec<([f64; 4], [f64; 4], [f64; 4])> {
+    use flo_curves::bezier::path::BezierPath;
+    paths.iter()
+        .flat_map(|path| path.to_curves::<bezier::Curve<Coord2>>())
+        .filter(|curve| !bezier::curve_is_tiny(curve))
+        .map(|curve| {
+            let Bounds(min, max) = curve.bounding_box::<Bounds<Coord2>>();
+            let (sp, (cp1, cp2), ep) = curve.all_points();
+            ([sp.0, cp1.0, cp2.0, ep.0], [sp.1, cp1.1, cp2.1, ep.1], [min.0, min.1, max.0, max.1])
+        })
+        .collect()
+}
+
+fn ranges_out(r: &[Range<f64>]) -> String {
+    let mut s = format!("#{}", r.len());
+    for q in r { s.push_str(&format!(" {} {}", hx(q.start), hx(q.end))); }
+    s
+}
+
+/// one row / column query: the curve table, the real solver's roots for every curve, the real ranges
+fn corr_scan(stats: &mut Stats, paths: &Vec<P>, width: usize, height: usize, pos: f64, column: bool, class: &str) {
+    use flo_curves::bezier::solve_basis_for_t;
+    let table = curve_table(paths);
+    let contour = PathContour::from_path(paths.clone(), ContourSize(width, height));
+    let got: Option<Vec<Range<f64>>> = std::panic::catch_unwind(std::panic::AssertUnwindSafe(|| if column { contour.intercepts_on_column(pos).into_iter().collect() } else { contour.intercepts_on_line(pos).into_iter().collect() })).ok();
+    let got = match got { Some(g) => g, None => { stats.count("skipped.panic"); return; } };
+    let mut line = format!("C16 {} R {} #{} #{}", if column { "col" } else { "row" }, hx(pos), if column { height } else { width }, table.len());
+    let mut hits = 0;
+    for (cx, cy, bb) in &table {
+        let w = if column { cx } else { cy };
+        let roots = solve_basis_for_t(w[0], w[1], w[2], w[3], pos);
+        hits += roots.len();
+        line.push_str(&format!(" {} {} {} #{}", hxs(cx), hxs(cy), hxs(bb), roots.len()));
+        for r in &roots { line.push_str(&format!(" {}", hx(*r))); }
+    }
+    line.push_str(&format!(" | {}", ranges_out(&got)));
+    stats.case(&line, hits > 0);
+    stats.count(&format!("{}.{}", if column { "col" } else { "row" }, class));
+    stats.count(&format!("{}.ranges_{}", if column { "col" } else { "row" }, got.len().min(4)));
+    if paths.len() > 1 { stats.count("scene.several_subpaths"); }
+    println!("{}", line);
+}
+
+/// straight-edged diamond (vertices on the axes through the centre), started at its left vertex
+fn diamond(cx: f64, cy: f64, r: f64) -> P { polygon(&[Coord2(cx - r, cy), Coord2(cx, cy + r), Coord2(cx + r, cy), Coord2(cx, cy - r)]) }
+
+fn corr_clip(stats: &mut Stats, rng: &mut Rng) {
+    let width = [1usize, 2, 7, 64, 100, 1000][rng.i(6) as usize];
+    let w = width as f64;
+    let kind = ["ascending_disjoint", "ascending_disjoint", "ascending_disjoint", "on_the_limits", "unordered_overlapping", "special_values"][rng.i(6) as usize];
+    let n = rng.i(7) as usize;
+    let mut ranges: Vec<Range<f64>> = vec![];
+    match kind {
+        "ascending_disjoint" => {
+            // as a PathContour produces them: pairs of an ascending list, reaching beyond both limits
+            let mut xs: Vec<f64> = (0..2 * n).map(|_| if rng.i(4) == 0 { rng.i(width as u64 + 3) as f64 - 1.0 } else { rng.r(-0.3 * w, 1.3 * w) }).collect();
+            xs.sort_by(|a, b| a.total_cmp(b));
+            for k in 0..n { ranges.push(xs[2 * k]..xs[2 * k + 1]); }
+        }
+        "on_the_limits" => {
+            let pick = |rng: &mut Rng| [0.0, -0.0, w, -1.0, w + 1.0, 0.5, w - 0.5, f64::MIN_POSITIVE, -f64::MIN_POSITIVE, w * (1.0 - f64::EPSILON / 2.0), w * (1.0 + f64::EPSILON)][rng.i(11) as usize];
+            for _ in 0..n { let (a, b) = (pick(rng), pick(rng)); ranges.push(a..b); }
+        }
+        "unordered_overlapping" => { for _ in 0..n { let (a, b) = (rng.r(-0.3 * w, 1.3 * w), rng.r(-0.3 * w, 1.3 * w)); ranges.push(a..b); } }
+        _ => {
+            let pick = |rng: &mut Rng| [f64::NAN, f64::INFINITY, f64::NEG_INFINITY, 0.0, -0.0, w, 1e300, -1e300, 1e-300][rng.i(9) as usize];
+            for _ in 0..n { let (a, b) = (pick(rng), pick(rng)); ranges.push(a..b); }
+        }
+    }
+    let y = if rng.b() { rng.i(100) as f64 } else { rng.r(-10.0, 110.0) };
+    let scale = [1.0, 1.0, 0.5, 2.0, 0.1, 3.7][rng.i(6) as usize];
+    let seen = std::cell::Cell::new(f64::NAN);
+    let given = ranges.clone();
+    let contour = RayCastContour::new(|yy: f64| { seen.set(yy); given.iter().cloned().collect::<smallvec::SmallVec<[Range<f64>; 4]>>() }, ContourSize(width, 1)).with_scale(scale);
+    let got: Vec<Range<f64>> = contour.intercepts_on_line(y).into_iter().collect();
+    let mut line = format!("C16 clip R {} {} #{} #{}", hx(y), hx(scale), width, ranges.len());
+    for q in &ranges { line.push_str(&format!(" {} {}", hx(q.start), hx(q.end))); }
+    line.push_str(&format!(" | {} {}", hx(seen.get()), ranges_out(&got)));
+    stats.case(&line, !ranges.is_empty());
+    stats.count(&format!("clip.{}", kind));
+    stats.count(&format!("clip.out_{}", got.len().min(4)));
+    println!("{}", line);
+}
+
+/// `solve_basis_for_t` against the generated definition, the external root finders (crate `roots`) being an input: the
+/// harness computes the coefficients as solve.rs does, calls both finders and records their answers
+fn corr_solve(stats: &mut Stats, rng: &mut Rng) {
+    use roots::{find_roots_cubic, find_roots_quadratic, Roots};
+    let kind = ["random", "random", "monotone", "line", "end_on_p", "start_on_p", "both_ends_on_p", "near_quadratic", "flat"][rng.i(9) as usize];
+    let g = |rng: &mut Rng| if rng.b() { rng.dyadic(0, 100, 8) } else { rng.r(0.0, 100.0) };
+    let (mut w1, mut w2, mut w3, mut w4) = (g(rng), g(rng), g(rng), g(rng));
+    let mut p = g(rng);
+    match kind {
+        "monotone" => { let mut v = [w1, w2, w3, w4]; v.sort_by(|a, b| a.total_cmp(b)); w1 = v[0]; w2 = v[1]; w3 = v[2]; w4 = v[3]; p = rng.r(w1, w4); }
+        "line" => { w2 = w1 + (w4 - w1) * 0.33; w3 = w1 + (w4 - w1) * 0.66; p = rng.r(w1.min(w4), w1.max(w4)); }
+        "end_on_p" => { p = w4; }
+        "start_on_p" => { p = w1; }
+        "both_ends_on_p" => { w4 = w1; p = w1; }
+        "near_quadratic" => { let e = 10f64.powf(rng.r(-10.0, -6.0)) * if rng.b() { 1.0 } else { -1.0 }; w4 = w1 + 3.0 * (w2 - w1) + (3.0 * (w3 - w2) - 3.0 * (w2 - w1)) + e; }
+        "flat" => { w2 = w1; w3 = w1; w4 = w1; if rng.b() { p = w1; } }
+        _ => {}
+    }
+    let d = w1 - p;
+    let c = 3.0 * (w2 - w1);
+    let b = 3.0 * (w3 - w2) - c;
+    let a = w4 - w1 - c - b;
+    let list = |r: Roots<f64>| -> Vec<f64> { match r { Roots::No(_) => vec![], Roots::One(v) => v.to_vec(), Roots::Two(v) => v.to_vec(), Roots::Three(v) => v.to_vec(), Roots::Four(v) => v.to_vec() } };
+    let rq = list(find_roots_quadratic(b, c, d));
+    let rc = list(find_roots_cubic(a, b, c, d));
+    let got = flo_curves::bezier::solve_basis_for_t(w1, w2, w3, w4, p);
+    let mut line = format!("C16 solve R {} {} {} {} {} {} {} {} {} #{}", hx(w1), hx(w2), hx(w3), hx(w4), hx(p), hx(a), hx(b), hx(c), hx(d), rq.len());
+    for r in &rq { line.push_str(&format!(" {}", hx(*r))); }
+    line.push_str(&format!(" #{}", rc.len()));
+    for r in &rc { line.push_str(&format!(" {}", hx(*r))); }
+    line.push_str(&format!(" | #{}", got.len()));
+    for r in got.iter() { line.push_str(&format!(" {}", hx(*r))); }
+    stats.case(&line, !got.is_empty());
+    stats.count(&format!("solve.{}", kind));
+    stats.count(&format!("solve.roots_{}", got.len()));
+    println!("{}", line);
+}
+
+pub fn corr(seed: u64, n: u64) {
+    quiet_panics();
+    let mut rng = Rng(seed ^ 0xC0221C16);
+    let mut stats = Stats::new();
+    // fixed scenes: the witnesses of the theorems (two sub-paths scanned through their start vertices, a column through a
+    // vertex that is an extremum in x) and the corpus of the search
+    let fixed: Vec<(Vec<P>, usize, usize, Vec<f64>, Vec<f64>)> = vec![
+        (vec![diamond(10.0, 10.0, 10.0)], 100, 100, vec![10.0, 5.0, 0.0, 20.0], vec![10.0, 0.0, 20.0, 3.0]),
+        (vec![diamond(10.0, 10.0, 10.0), diamond(40.0, 10.0, 10.0)], 100, 100, vec![10.0, 5.0, 0.0, 20.0], vec![10.0, 40.0, 0.0, 30.0]),
+        (vec![diamond(10.0, 10.0, 10.0), diamond(10.0, 40.0, 15.0)], 100, 100, vec![10.0, 40.0, 25.0], vec![0.0, 10.0, 20.0, -5.0, 25.0]),
+        (vec![circle(50.0, 50.0, 20.0)], 100, 100, vec![50.0, 30.0, 70.0], vec![50.0, 30.0, 70.0]),
+        (vec![circle45(50.0, 50.0, 20.0)], 100, 100, vec![50.0, 30.0, 70.0], vec![50.0, 30.0, 70.0]),
+        (vec![rect(20.0, 30.0, 60.0, 70.0)], 100, 100, vec![30.0, 70.0, 50.0], vec![20.0, 60.0, 40.0]),
+        (vec![rect(10.0, 10.0, 90.0, 90.0), circle45(50.0, 50.0, 20.0)], 100, 100, vec![50.0, 10.0, 30.0], vec![50.0, 10.0, 30.0]),
+        (vec![circle45(60.0, 50.0, 30.0)], 80, 100, vec![50.0, 20.0, 80.0], vec![60.0, 30.0, 79.5]),
+    ];
+    for (paths, w, h, rows, cols) in &fixed {
+        stats.count("scene.fixed");
+        let verts: Vec<Coord2> = paths.iter().flat_map(|p| vertices(p)).collect();
+        for y in rows.iter().cloned().chain(verts.iter().map(|v| v.1)) { corr_scan(&mut stats, paths, *w, *h, y, false, "fixed"); }
+        for x in cols.iter().cloned().chain(verts.iter().map(|v| v.0)) { corr_scan(&mut stats, paths, *w, *h, x, true, "fixed"); }
+    }
+    for it in 0..n {
+        match it % 4 {
+            0 => corr_clip(&mut stats, &mut rng),
+            1 => corr_solve(&mut stats, &mut rng),
+            _ => {
+                let pair = gen_pair(&mut rng);
+                let (mut paths, kind) = if rng.b() { (pair.a, pair.kind_a) } else { (pair.b, pair.kind_b) };
+                if rng.i(3) == 0 { let other = gen_pair(&mut rng); paths.extend(other.a); }
+                let (w, h) = [(100, 100), (80, 100), (100, 64), (128, 128)][rng.i(4) as usize];
+                stats.count(&format!("scene.kind.{}", kind));
+                let cs: Vec<Vec<Cubic>> = paths.iter().map(cubics).collect();
+                let tcs: Vec<Vec<Cubic>> = paths.iter().map(|p| cubics(&transposed(p))).collect();
+                let tangent_ys: Vec<f64> = cs.iter().flatten().flat_map(horizontal_tangent_ys).collect();
+                let tangent_xs: Vec<f64> = tcs.iter().flatten().flat_map(horizontal_tangent_ys).collect();
+                let verts: Vec<Coord2> = paths.iter().flat_map(|p| vertices(p)).collect();
+                let column = it % 4 == 3;
+                let (vs, ts, limit): (Vec<f64>, &Vec<f64>, usize) = if column { (verts.iter().map(|v| v.0).collect(), &tangent_xs, w) } else { (verts.iter().map(|v| v.1).collect(), &tangent_ys, h) };
+                let pos = match rng.i(6) {
+                    0 if !vs.is_empty() => vs[rng.i(vs.len() as u64) as usize],
+                    1 if !ts.is_empty() => ts[rng.i(ts.len() as u64) as usize],
+                    2 if !vs.is_empty() => { let v = vs[rng.i(vs.len() as u64) as usize]; f64::from_bits(v.to_bits() + 1 - 2 * rng.i(2)) }
+                    3 => rng.i(limit as u64 + 1) as f64,
+                    4 if !vs.is_empty() => { let (lo, hi) = vs.iter().fold((f64::MAX, f64::MIN), |(lo, hi), v| (lo.min(*v), hi.max(*v))); rng.r(lo - 1.0, hi + 1.0) }
+                    _ => rng.r(0.0, limit as f64),
+                };
+                let class = if column { classify(&tcs, &tangent_xs, pos, "x", "vertical") } else { classify(&cs, &tangent_ys, pos, "y", "horizontal") };
+                corr_scan(&mut stats, &paths, w, h, pos, column, &class);
+            }
+        }
+    }
+    stats.print(PROP, "corr");
+}
